@@ -247,14 +247,32 @@ func ruleC07(p *Prog, r *Res) {
 			}
 			// times are re-based in the tail instead: an op-assignment to the field on elements of the writer's table after the loop
 			rebased := false
-			inspectShallow(f.Body(), func(y ast.Node) bool {
-				if as, ok := y.(*ast.AssignStmt); ok && as.Tok == token.ADD_ASSIGN && len(as.Lhs) == 1 {
-					if se, ok := ast.Unparen(as.Lhs[0]).(*ast.SelectorExpr); ok && se.Sel.Name == fn && as.Pos() > fl.node(*copyPt).Pos() {
-						rebased = true
+			addsToField := func(body ast.Node, after token.Pos) bool {
+				hit := false
+				inspectShallow(body, func(y ast.Node) bool {
+					if as, ok := y.(*ast.AssignStmt); ok && as.Tok == token.ADD_ASSIGN && len(as.Lhs) == 1 {
+						if se, ok := ast.Unparen(as.Lhs[0]).(*ast.SelectorExpr); ok && se.Sel.Name == fn && as.Pos() > after {
+							hit = true
+						}
 					}
-				}
-				return true
-			})
+					return true
+				})
+				return hit
+			}
+			rebased = addsToField(f.Body(), fl.node(*copyPt).Pos())
+			if !rebased {
+				// the tail may delegate to a helper of the package that is handed (a part of) the writer's table
+				inspectShallow(f.Body(), func(y ast.Node) bool {
+					if c, ok := y.(*ast.CallExpr); ok && c.Pos() > fl.node(*copyPt).Pos() {
+						if cf := p.Callee(f.Pkg, c); cf != nil {
+							if h := p.FnOfObj(cf); h != nil && h.Pkg == f.Pkg && h != f && h.Body() != nil && addsToField(h.Body(), token.NoPos) {
+								rebased = true
+							}
+						}
+					}
+					return true
+				})
+			}
 			r.Check(rebased, ruleC, key, p.Pos(fl.node(*copyPt)), "re-based in the tail of AddIndex ("+relative[tn][fn]+")", "the field is carried into the merged file unchanged although the reader interprets it relative to its own file ("+relative[tn][fn]+"): "+fl.traceString(res))
 		}
 	}
